@@ -908,6 +908,7 @@ func checkF6(c *fw.Ctx) {
 		c.SawFn(name)
 		var sites []string
 		seenSite := map[string]bool{}
+		nSlices := 0
 		for _, f := range fw.FamilyOf(fn) {
 			for _, s := range fw.IndexSites(f) {
 				if s.Guarded {
@@ -920,10 +921,21 @@ func checkF6(c *fw.Ctx) {
 				}
 				seenSite[key] = true
 				sites = append(sites, c.P.Pos(fw.InstrPos(s.Instr)))
+				if _, isSlice := s.Instr.(*ssa.Slice); isSlice {
+					nSlices++
+				}
 			}
 		}
 		sort.Strings(sites)
 		w := want[name]
+		if len(sites) > w.n && len(sites)-nSlices <= w.n {
+			// the surplus are slice expressions x[a:b] (a run of bytes copied at once): whether
+			// a <= b <= len(x) holds is a relation between two values of the scan position, which
+			// this count does not judge
+			c.Undecided(rule, fmt.Sprintf("%s has no index/slice on remote bytes beyond the %d justified ones", strings.TrimPrefix(name, "gmsl."), w.n), fmt.Sprintf("%d sites (%s), %d of them slice expressions whose bounds were not examined", len(sites), strings.Join(sites, ", "), nSlices))
+			c.Count("raw_byte_index_sites", len(sites))
+			continue
+		}
 		c.Check(len(sites) <= w.n, rule, fmt.Sprintf("%s has no index/slice on remote bytes beyond the %d justified ones", strings.TrimPrefix(name, "gmsl."), w.n), c.P.Pos(fn.Pos()), w.why, fmt.Sprintf("%d index/slice operations on remote bytes (%s) but only %d are justified (%s): a new access without a bounds guard can run past the end of the input", len(sites), strings.Join(sites, ", "), w.n, w.why))
 		c.Count("raw_byte_index_sites", len(sites))
 	}
